@@ -233,7 +233,9 @@ class SchulzZimm(Distribution):
         self._Mw = float(self._Mw)
         self._Mn = float(self._Mn)
         self._z = self._Mn / (self._Mw - self._Mn)
-        self._distribution = self.schulz_zimm_gen(name="Schulz-Zimm")
+        # The support starts at mass 1: at mass 0 the density is positive for Mw = 2 Mn
+        # and diverges for Mw > 2 Mn, which made every draw 0 and the total probability exceed 1.
+        self._distribution = self.schulz_zimm_gen(a=1, name="Schulz-Zimm")
 
     def generate_string(self, extension):
         if extension:
